@@ -5,6 +5,12 @@ props = [json.loads(l) for l in open('/verif/properties.jsonl')]
 
 # id -> (level text, level note, technique)
 CHECKS = {
+ "C03": ("Random expression trees (finite literal zoo, nested prefixes, complex operands, ^ chains) printed with the real serializer, re-parsed with the real parser and compared by value at three assignments; bounded depth, sampled assignments.",
+         "Uses the library evaluator on both sides (the inverse is the oracle); the reference evaluator is used only to screen points on branch cuts.",
+         "property-based testing: proptest-generated trees, print/parse round-trip oracle, value comparison"),
+ "C12": ("Random expression trees with shared subterms, simplified by the library and compared against an independent reference evaluator at three generic assignments after conditioning screens; bounded depth; sampled assignments.",
+         "Points that are non-finite, on a branch cut, have a zero power base or are ill-conditioned are not compared; literals avoid the simplifier's documented 1e-10 folding threshold.",
+         "property-based testing: proptest-generated trees against a reference-evaluator (differential) oracle"),
  "C28": ("Exhaustive enumeration of all short bodies over the control-flow alphabet plus random longer bodies, each checked against a block-reconstruction oracle; bounded, so no claim beyond the explored sizes.",
          "Trusts Program::from_instructions/body_instructions to expose the body; INCLUDE not generated (excepted by the statement).",
          "property-based testing: exhaustive small-scope enumeration + proptest random bodies against a reconstruction oracle"),
